@@ -12,6 +12,7 @@ func init() {
 			return []runner.Job{
 				{Harness: "c18.valid", Mode: "plain", Shards: 16, MaxRSS: 8192},
 				{Harness: "c18.invalid", Mode: "plain", Shards: 16},
+				{Harness: "c18.lengths", Mode: "plain", Shards: 16},
 			}
 		},
 	})
